@@ -8,14 +8,16 @@ From Utp Require Import Wire.Header Mtu.SegSizes.
 From Utp Require Import Rx.Rx Tx.Segments Tx.Ring.
 From Utp Require Import Cubic.F64 Cubic.Cubic Cubic.Libm.
 From Utp Require Import Sock.Dispatcher Sock.DispObs.
+From Utp Require Import Sock.DispHostile.
 From Utp Require Import Conn.C10_Pred Conn.C02_Pred.
 From Utp Require Import Conn.C17_Pred Conn.C03_Pred.
 From Utp Require Import Conn.C05_Pred Conn.C06_Pred.
-From Utp Require Import Conn.C07_Pred Conn.C07_Pred2 Conn.C18_Pred Conn.C09_Pred.
-From Utp Require Import Pair.Pair.
+From Utp Require Import Conn.C07_Pred Conn.C07_Pred2 Conn.C18_Pred Conn.C09_Pred Conn.C09_Shift.
+From Utp Require Import Pair.Pair Pair.C01_Pred2.
 From Utp Require Import Conn.C04_Pred Conn.C0506_Pred2 Conn.C14C08_Pred Conn.C14_Pred2 Conn.C08_Pred2.
 From Utp Require Import Conn.C04_Pred Conn.C0506_Pred2 Conn.C14C08_Pred.
-From Utp Require Import Conn.C11_Pred Sock.DispC11_Pred Conn.C04_Pred2 Conn.C05_Pred3 Cubic.C15_Pred2.
+From Utp Require Import Conn.C11_Pred Sock.DispC11_Pred Conn.C04_Pred2 Conn.C05_Pred3 Cubic.C15_Pred2 Conn.C18_Pred2 Conn.C06_Pred2 Pair.C02_PairPred Conn.C17_Pred2 Conn.C04_Guard Conn.C04_Consumed Conn.C06_Pred3.
+From Utp Require Import Conn.C11_Pred Sock.DispC11_Pred Conn.C04_Pred2 Conn.C05_Pred3 Cubic.C15_Pred2 Conn.C18_Pred2 Conn.C06_Pred2 Sock.DispC13_Pred.
 From Utp Require Import Conn.Recovery Conn.Msg Conn.VSockRec Conn.VSock Conn.VSockRun Conn.VObs.
 
 Extraction Language OCaml.
@@ -45,11 +47,18 @@ Extraction "model"
   c18_nagle_ok c18_pre_monitor
   pair_new_cubic ptrace_cubic c01_dir_bad c01_dir_ok c01_pair_ok c01_pair_guarded c01_kf1_class c01_kf1_class_dir
   c01_d17_class c01_d17_class_dir dchk0 pkt_size hacc_add hacc0
+  c01_kf1_class2 c01_kf1_class2_dir c01_kf1_popped_dir c01_pair_guarded2 pops_of popped_between
   c04_vsock_ack_ok c04_d19_class c06_no_resend_acked c05_rto_exit_ok c05_slow_start_ok
   c14_datagram_ok c14_segments_ok c08_deadline_ok c14_wire_ok c08_fires_ok
-  c09_shift_ok c09_first_bad c09_within_tol drop_vsock poll_finished c03_post_drop_ok c03_drop_wakes_ok
+  c09_shift_ok c09_first_bad c09_within_tol c09_guard_trace_cubic c09_guard_first_bad_cubic drop_vsock poll_finished c03_post_drop_ok c03_drop_wakes_ok
   dstate_new dstep drun dtrace cleanup_accept_queue push_acceptor c12_step_ok c13_step_ok c12_syn_fresh_ok
   c11_emitted_ok c11_conn_types_ok c11_config_ok c11_dstep_ok c04_consumed_honest_ok
   c05_window_ok2 c05_rto_exit_ok2 c05_zero_window_ok_open c05_zero_window_strict_or_d16_open c05_monitor_core_ok c05_win_guard
   c15_obs_ok_b setmss_runs_ok
+  c10_disp_step_ok c10_disp_bounds_ok c10_disp_trace_ok parse_raw dmsg_of_header handle_recv_raw rtrace
+  c13_pending_ok c13_no_empty_entry_ok
+  c18_off_all_segmented_ok c18_drain_sends_ok c18_buffered_segmented_ok c18_pre_ok
+  c06_emitted_live_ok_g c06_no_resend_acked_g c06_fast_retx_ok_g
+  c02_pair_settled_ok
+  c17_peer_fin_ok2 c17_fin_covers_data_ok c04_vsock_ack_guarded c04_consumed_honest_guarded c04_d22_class c06_stable_plen_ok_p
   cubic_new cubic_trace c15_obs_ok c15_obs_core f64_view BETA_CUBIC C_CUBIC cbrt_cr.
